@@ -10,7 +10,7 @@ from . import _ws
 from . import c12
 
 ID = 'C02'
-TIERS = {'quick': {'seeds': 2500, 'seconds': 40, 'determinism': 32},
+TIERS = {'quick': {'seeds': 6000, 'seconds': 75, 'determinism': 32},
          'thorough': {'seconds': 900, 'determinism': 256, 'minimise_s': 120}}
 RULE = ('seeded worlds with bad outcomes of every kind at random positions (or none), arbitrary '
         'stdout/stderr noise from tests, import failures, layer failures, NotImplementedError '
@@ -67,6 +67,14 @@ def gen(seed):
         if cands:
             spec['plan'].append({'site': 'layer.tearDown', 'ident': rng.choice(cands),
                                  'a': 'raise', 'exc': 'NotImplementedError', 'where': 'parent'})
+    if rng.random() < 0.06:
+        # a test module that imports in the parent but not in a child (environment dependent)
+        mod = rng.choice(world['modules'])
+        spec['plan'].append({'site': 'module.import',
+                             'ident': '%s.tests.%s' % (W.PKG, mod['name']), 'a': 'raise',
+                             'exc': rng.choice(['ValueError', 'KeyError']), 'where': 'child'})
+        if not spec['opt'].get('j'):
+            spec['opt']['j'] = 2
     spec['plan'] = _ws.order_plan(spec['plan'])
     return spec
 
